@@ -120,7 +120,10 @@ fn c07_backface_antisymmetric() {
 #[kani::proof]
 #[kani::unwind(8)]
 fn c06_depth_sort_orders() {
-    let z: [i32; 3] = [int(-8, 8), int(-8, 8), int(-8, 8)];
+    // (inputs drawn as one i8 array: with three separate i32 draws Kani 0.68 failed to emit a playback test here)
+    let zz: [i8; 3] = kani::any();
+    kani::assume(zz.iter().all(|v| *v >= -8 && *v <= 8));
+    let z: [i32; 3] = [zz[0] as i32, zz[1] as i32, zz[2] as i32];
     kani::assume(z[0] != z[1] && z[1] != z[2] && z[0] != z[2]);
     let mk = |i: usize| {
         let zz = z[i] as f32;
@@ -135,4 +138,31 @@ fn c06_depth_sort_orders() {
     assert!(a != b && b != c && a != c && a < 3 && b < 3 && c < 3);
     if front { assert!(z[a] < z[b] && z[b] < z[c]); } else { assert!(z[a] > z[b] && z[b] > z[c]); }
     kani::cover!(front && a == 2, "reordered");
+}
+
+/// P4: perspective divide + viewport transform, exactly as render() does them:
+/// a clip-space vertex with |x|, |y| <= w and w in [2^-10, 2^10] lands inside
+/// the viewport rectangle [l,r] x [t,b] (within 1e-3 px) with a positive,
+/// finite reciprocal depth - the precondition of the margin lemma (P1).
+#[kani::proof]
+#[kani::unwind(6)]
+fn c02_divide_and_viewport() {
+    use re::math::mat::viewport;
+    use re::math::point::pt2;
+    use re::math::vary::ZDiv;
+    use re::math::vec::vec3;
+    let (l, t, r, b): (u32, u32, u32, u32) = (kani::any(), kani::any(), kani::any(), kani::any());
+    kani::assume(l <= r && r <= 4096 && t <= b && b <= 4096);
+    let (x, y, w): (f32, f32, f32) = (kani::any(), kani::any(), kani::any());
+    kani::assume(w >= 0.0009765625 && w <= 1024.0);
+    kani::assume(x >= -w && x <= w && y >= -w && y <= w);
+    // as in render(): (x, y, 1) / w, then the viewport matrix
+    let ndc = vec3(x, y, 1.0).z_div(w);
+    assert!(ndc.x() >= -1.0 && ndc.x() <= 1.0 && ndc.y() >= -1.0 && ndc.y() <= 1.0);
+    let p = viewport(pt2(l, t)..pt2(r, b)).apply(&ndc).to_pt();
+    assert!(p.x() >= l as f32 - 1e-3 && p.x() <= r as f32 + 1e-3);
+    assert!(p.y() >= t as f32 - 1e-3 && p.y() <= b as f32 + 1e-3);
+    assert!(p.z() > 0.0 && p.z().is_finite());
+    kani::cover!(x == w && l == 3 && r == 1920, "right clip plane, odd viewport");
+    kani::cover!(x == -w && y == w, "corner");
 }
